@@ -24,6 +24,8 @@ def run(chk, tier, seed):
         # exclusions must see hidden names although the inclusion flags do not (DOTMATCH is forced on the exclusion route)
         hidden_pats = [p for p in pats if any(t == ('lit', '.') for t in p)]
         cases += [(p, G.G, e) for p in hidden_pats + pats[5:8] for e in ('*', '**/*', ['**/?*'])]
+        # NEGATEALL: exclusions alone stand for "everything (recursively) except" - with and without GLOBSTAR in the flags
+        cases += [(p, fl, None) for p in ('!*.txt', '!a', '!d/**', '!**/x') for fl in (G.N | G.A, G.N | G.A | G.G, G.N | G.A | G.D)]
         for i in range(0, len(cases), 60):
             items.append((tname, spec, cases[i:i + 60]))
     n = 0
